@@ -96,6 +96,7 @@ def run(ctx, report):
             bad.append({"reader": attr, "read_back": rv})
     report.check(not bad, "R-TABLE-INVERSE", dw, "DFXP: font-family / font-size / color / text-align use the same attribute both ways",
                  {"mismatches": bad}, "1")
+    sami_class_case(ctx, report, folder)
     # WebVTT
     f = ctx.index.get_function(VTT, "WebVTTWriter._convert_style_to_text_tag")
     report.covered(f)
@@ -103,3 +104,29 @@ def run(ctx, report):
     got = {k: folder.call_function(f, [k]) for k in want}
     report.check(got == want, "R-TABLE-REF", f, "WebVTT: italics / bold / underline are wrapped in matching i / b / u tags",
                  {"found": got}, "1")
+
+
+def sami_class_case(ctx, report, folder):
+    """Style classes are found again: the stylesheet parser stores selectors lower-cased, so the
+    reader must lower-case the class / id it looks up (folded on a stub tag with mixed-case names)."""
+    ta = ctx.index.get_function(SAMI, "SAMIReader._translate_attrs")
+    cp = ctx.index.get_function(SAMI, "SAMIParser._css_parse")
+    for f in (ta, cp):
+        report.covered(f)
+    lowers = any(isinstance(n, ast.Assign) and src(n.targets[0]) == "selector" and src(n.value).endswith(".lower()")
+                 for n in walk_no_nested(cp.node)) or "selectorText.lower()" in src(cp.node)
+    if not lowers:
+        raise AnalysisError("SAMIParser._css_parse: selector normalisation not recognised")
+    rcls = ctx.index.get_class(SAMI, "SAMIReader")
+    got = {}
+    for label, attrs in (("class", {"class": ["EmPh"]}), ("id", {"id": "BiG"})):
+        try:
+            out = folder.call_function(ta, [Stub("tag", {"attrs": attrs, "name": "span"})], self_value=Stub("reader", {}, cls=rcls))
+        except AnalysisError as e:
+            raise AnalysisError(f"SAMIReader._translate_attrs cannot be folded: {e}")
+        got[label] = out.get("class") if isinstance(out, dict) else out
+    report.check(got == {"class": "emph", "id": "big"}, "R-TABLE-SIBLING", ta,
+                 "SAMI: a class / id reference is normalised like the stylesheet's selectors (lower case)",
+                 {"stylesheet_selectors": "lower-cased", "folded_lookups": got,
+                  "why": "'.Emph {font-style: italic}' is stored as 'emph': looking up 'Emph' finds nothing and the italics are lost"},
+                 "1")
